@@ -135,6 +135,11 @@ func c11NoSpuriousEnd(c *fw.Ctx, idx int, sc c11Idle) {
 	mark()
 	code, err := cc.Connect(kit.ConnectOpts{ClientID: clientID, KeepAlive: sc.k, Clean: true})
 	if err != nil || code != 0 {
+		if cc.Closed() || code > 0 {
+			// the broker dropped or refused a client that did nothing but CONNECT with a legal keep-alive
+			c.Violation("spurious-end:at-connect", fmt.Sprintf("%s: the CONNECT itself was not accepted (code %d, %v)", desc, code, err), map[string]interface{}{"keepalive_s": sc.k})
+			return
+		}
 		c.Inconclusive(fmt.Sprintf("%s: connect failed: %v code %d", desc, err, code))
 		return
 	}
